@@ -249,8 +249,8 @@ CHECKS = {
             'nodes and the same reachability, with the most / the fewest edges among all graphs of that reachability '
             '(closure_most, reduction_fewest); the recursive visits compute reachability (cloVisit_spec, redVisit_spec, '
             'budget size+1 sufficient by a rank from the topological order) and the in-place loops are handled by an '
-            'invariant per processed position. flatten (the loop of grafts over the nested store), recursive '
-            'dependencies, <=, == are in the executable model and checked against DepGraph and against the set-level '
+            'invariant per processed position; <= and == read the abstraction (le_reads: sub-graph; eq_reads: same nodes and '
+            'same edges). flatten (the loop of grafts over the nested store) and recursive dependencies are in the executable model and checked against DepGraph and against the set-level '
             'oracle on every run, without theorems.',
             'Trusted: Lean kernel + standard axioms; correspondence sampled (exhaustive <= 4 nodes in thorough); node '
             'identity = Python id(); topological order compared for validity, not equality; graft/flatten only on '
